@@ -8,6 +8,7 @@ Core plumbing shared by all property checks (see DESIGN.md section 2.4):
 
 Exit codes: 0 held, 1 violation, 2 infrastructure failure.
 """
+import contextlib
 import hashlib
 import json
 import os
@@ -316,6 +317,20 @@ def load_known():
 # ----------------------------------------------------------------------------------------------------------
 # the check object
 # ----------------------------------------------------------------------------------------------------------
+@contextlib.contextmanager
+def strict_env():
+    """A process state that real callers have (pytest -W error, PYTHONWARNINGS=error, np.seterr(all='raise')): every warning is raised
+    as an error and numpy raises on floating-point errors.  Used around implementation calls in sub-streams that hold on the unchanged
+    tree; a call that only fails in this state leaves the objects in whatever state the exception left them -- the property's clauses
+    are evaluated on them afterwards like after any other rejected call."""
+    import warnings
+    import numpy as np
+    with warnings.catch_warnings():
+        warnings.simplefilter("error")
+        with np.errstate(all="raise"):
+            yield
+
+
 class Check:
     def __init__(self, pid, tier, seed):
         self.pid, self.tier, self.seed = pid, tier, seed
